@@ -131,6 +131,7 @@ Section SessionInv.
       { destruct (env_step_cases obs o_update I (asN (vnth ev 1)) (asZ (vnth ev 2)) w) as [[e He]|[m' He]];
           rewrite He; [exact Hw|apply dispatch_WInv; exact Hw]. }
       do 4 (try match goal with p0 : BinNums.positive |- _ => destruct p0 end);
+      try (match goal with |- context [if ?b then _ else _] => destruct b end);
       first [ exact Hw
             | cbn; exact He
             | cbn; apply Hnc; first [apply subscribe_world|apply new_observer_world
